@@ -38,6 +38,7 @@ enum {
 	OC_ELP_OK, OC_ELP_REJ, OC_ELP_TRAILING_ACCEPTED, OC_ELP_TRAILING_REJECTED,
 	OC_NEST_OK, OC_NEST_REJ_UNTILED,
 	OC_STREAM_SOCK_OK, OC_STREAM_SOCK_REJ, OC_STREAM_FILE_OK, OC_STREAM_FILE_REJ, OC_STREAM_COOKIE_OK,
+	OC_OK, OC_REJECT,
 	OC_N
 };
 static const char *OC_NAME[OC_N] = {
@@ -51,7 +52,8 @@ static const char *OC_NAME[OC_N] = {
 	"parseBlob:ok", "parseBlob:reject-incomplete-header", "parseBlob:reject-short-payload", "parseBlob:reject-trailing",
 	"elemParse:ok", "elemParse:reject", "elemParse:TRAILING-ACCEPTED", "elemParse:trailing-rejected",
 	"expand:ok", "expand:reject-untiled",
-	"stream:socket:ok", "stream:socket:reject", "stream:file:ok", "stream:file:reject", "stream:cookie:ok"
+	"stream:socket:ok", "stream:socket:reject", "stream:file:ok", "stream:file:reject", "stream:cookie:ok",
+	"edit:applied", "edit:refused-absent-or-ambiguous"
 };
 static long g_oc[OC_N];
 #define OC(c) (g_oc[c]++)
@@ -1256,6 +1258,158 @@ static void part_d(void) {
 }
 
 /* ================================================================== */
+/* ------------------------------------------------------------------ part e: edits of an element tree */
+/* A parent with up to three children is obtained from its encoding (parsed, children expanded lazily) or built with the
+ * element API; then every sequence of edit operations of the bound is applied - remove the child with a tag, append a
+ * child, set (replace or add) a child - and after every operation the serialization has to be the reference encoding of
+ * the tree the operations describe, and has to parse back. */
+#define E_MAXCH 8
+typedef struct { unsigned tag; int fl; size_t len; unsigned seed; } echild;
+typedef struct { unsigned ptag; int pfl; echild ch[E_MAXCH]; int n; } etree;
+static const unsigned E_TAGS[3] = {0x01, 0x02, 0x20};
+static const size_t E_LENS[3] = {0, 3, 253};
+
+static rnode *e_ref(const etree *t) {
+	rnode *p = nestx(t->ptag, t->pfl);
+	int i;
+	for (i = 0; i < t->n; i++) rt_add(p, leafx(t->ch[i].tag, t->ch[i].fl, t->ch[i].len, t->ch[i].seed));
+	if (t->n == 0) { p = leafx(t->ptag, t->pfl, 0, 0); }
+	return p;
+}
+static int e_count(const etree *t, unsigned tag, int *pos) { int i, n = 0; for (i = 0; i < t->n; i++) if (t->ch[i].tag == tag) { if (!n) *pos = i; n++; } return n; }
+static KSI_TlvElement *e_leaf_el(const echild *c, int detach) {
+	rnode *r = leafx(c->tag, c->fl, c->len, c->seed);
+	int refused = 0;
+	KSI_TlvElement *e = build_el(r, detach, &refused);
+	if (!e) vf_harness_error("part e: cannot build a leaf element (%x)", refused);
+	return e;
+}
+static void e_check(KSI_TlvElement *pe, const etree *t, const char *what) {
+	vbuf enc;
+	rnode *r = e_ref(t);
+	vb_init(&enc);
+	rt_layout(r);
+	if (rt_encode(r, &enc, 1) != 0) vf_harness_error("part e: reference encoding");
+	el_serialize_expect(pe, &enc, "elem-edit-serialize", what);
+	vb_free(&enc);
+}
+/* op code: 0..2 remove tag k; 3..11 append (tag, len); 12..20 set (tag, len) */
+#define E_NOPS 21
+static void e_opname(int op, char *o, size_t cap) {
+	if (op < 3) snprintf(o, cap, "rm%x", E_TAGS[op]);
+	else if (op < 12) snprintf(o, cap, "app%x.%zu", E_TAGS[(op - 3) / 3], E_LENS[(op - 3) % 3]);
+	else snprintf(o, cap, "set%x.%zu", E_TAGS[(op - 12) / 3], E_LENS[(op - 12) % 3]);
+}
+static int e_apply(KSI_TlvElement *pe, etree *t, int op, unsigned seed, int detach, const char *what) {
+	int res, pos = 0, cnt;
+	if (op < 3) {
+		KSI_TlvElement *out = NULL;
+		cnt = e_count(t, E_TAGS[op], &pos);
+		res = KSI_TlvElement_removeElement(pe, E_TAGS[op], &out);
+		CALL();
+		if (cnt == 1) {
+			if (res != KSI_OK) { fail1("elem-edit-refused", "%s: removing the only child with tag %x returned %x", what, E_TAGS[op], res); return -1; }
+			if (out == NULL || out->ftlv.tag != E_TAGS[op] || out->ftlv.dat_len != t->ch[pos].len) fail1("elem-edit-removed-wrong", "%s: the removed element is not the child with tag %x", what, E_TAGS[op]);
+			memmove(&t->ch[pos], &t->ch[pos + 1], sizeof t->ch[0] * (size_t)(t->n - pos - 1));
+			t->n--;
+			OC(OC_OK);
+		} else {
+			/* absent or ambiguous: has to be refused and must leave the tree alone */
+			if (res == KSI_OK) { fail1("elem-edit-ambiguous-accepted", "%s: removing tag %x succeeded although %d children carry it", what, E_TAGS[op], cnt); KSI_TlvElement_free(out); return -1; }
+			OC(OC_REJECT);
+		}
+		KSI_TlvElement_free(out);
+		return 0;
+	} else {
+		echild c;
+		KSI_TlvElement *ce;
+		int is_set = op >= 12, k = (op - (is_set ? 12 : 3));
+		c.tag = E_TAGS[k / 3]; c.len = E_LENS[k % 3]; c.fl = (int)(seed & 3); c.seed = seed;
+		if (t->n >= E_MAXCH) return 1;
+		ce = e_leaf_el(&c, detach);
+		cnt = e_count(t, c.tag, &pos);
+		res = is_set ? KSI_TlvElement_setElement(pe, ce) : KSI_TlvElement_appendElement(pe, ce);
+		CALL();
+		KSI_TlvElement_free(ce);
+		if (is_set && cnt > 1) {
+			if (res == KSI_OK) { fail1("elem-edit-ambiguous-accepted", "%s: setting tag %x succeeded although %d children carry it", what, c.tag, cnt); return -1; }
+			OC(OC_REJECT);
+			return 0;
+		}
+		if (res != KSI_OK) { fail1("elem-edit-refused", "%s: %s of a child with tag %x returned %x", what, is_set ? "set" : "append", c.tag, res); return -1; }
+		if (is_set && cnt == 1) t->ch[pos] = c;
+		else t->ch[t->n++] = c;
+		OC(OC_OK);
+		return 0;
+	}
+}
+static void e_sequence(const etree *t0, int origin, const int *ops, int nops) {
+	etree t = *t0;
+	KSI_TlvElement *pe = NULL;
+	vbuf enc;
+	unsigned char *heap = NULL;
+	char what[200], nm[24];
+	int i, refused = 0, k = 0;
+	rnode *r = e_ref(&t);
+	vb_init(&enc);
+	rt_layout(r);
+	if (rt_encode(r, &enc, 1) != 0) vf_harness_error("part e: reference encoding of the start tree");
+	k += snprintf(what, sizeof what, "%s parent %x with %d children;", origin == 0 ? "parsed" : origin == 1 ? "built" : "built+detached", t.ptag, t.n);
+	if (origin == 0) {
+		heap = (unsigned char *)malloc(enc.n ? enc.n : 1);
+		memcpy(heap, enc.p, enc.n);
+		if (KSI_TlvElement_parse(heap, enc.n, &pe) != KSI_OK || pe == NULL) { fail1("elem-valid-rejected", "%s the reference encoding does not parse", what); goto done; }
+		CALL();
+	} else {
+		rt_bind(r, enc.p);
+		pe = build_el(r, origin == 2, &refused);
+		if (!pe) { fail1("elem-edit-refused", "%s cannot be built (%x)", what, refused); goto done; }
+	}
+	for (i = 0; i < nops; i++) {
+		int rc;
+		e_opname(ops[i], nm, sizeof nm);
+		if (k < (int)sizeof what - 30) k += snprintf(what + k, sizeof what - (size_t)k, " %s", nm);
+		rc = e_apply(pe, &t, ops[i], (unsigned)(40 + 7 * i + ops[i]), origin == 2, what);
+		if (rc != 0) break;
+		e_check(pe, &t, what);
+	}
+	/* the edited element detaches (re-encodes itself into an own buffer) to the same bytes */
+	if (i == nops) {
+		int res = KSI_TlvElement_detach(pe);
+		CALL();
+		if (res != KSI_OK) fail1("elem-edit-detach", "%s: detach after the edits returned %x", what, res);
+		else e_check(pe, &t, what);
+	}
+done:
+	KSI_TlvElement_free(pe);
+	free(heap);
+	vb_free(&enc);
+	rt_reset();
+	g_trees++;
+}
+static void part_e(void) {
+	/* start trees: 0..3 children drawn in order from (tag, len) pairs; origins: parsed / built / built+detached */
+	static const int START[][3] = {{-1, -1, -1}, {0, -1, -1}, {2, -1, -1}, {0, 4, -1}, {1, 8, -1}, {0, 4, 8}, {2, 3, 7}, {0, 0, -1}, {5, 5, 5}};
+	int nstart = (int)(sizeof START / sizeof *START), si, origin, o1, o2, o3, maxops = VF_THOROUGH ? 3 : 2;
+	for (si = 0; si < nstart; si++) for (origin = 0; origin < 3; origin++) for (o1 = 0; o1 < E_NOPS; o1++) {
+		etree t;
+		int j, ops[3];
+		memset(&t, 0, sizeof t);
+		t.ptag = si & 1 ? 0x10 : 0x120; t.pfl = si & 3;
+		for (j = 0; j < 3 && START[si][j] >= 0; j++) { t.ch[t.n].tag = E_TAGS[START[si][j] / 3]; t.ch[t.n].len = E_LENS[START[si][j] % 3]; t.ch[t.n].fl = j & 3; t.ch[t.n].seed = (unsigned)(si * 5 + j); t.n++; }
+		if (origin == 0 && t.n == 0) continue;       /* an empty payload cannot be told from a raw leaf */
+		if (!begin_case("e", "start%d:origin%d:op%d:len%d", si, origin, o1, maxops)) continue;
+		ops[0] = o1;
+		e_sequence(&t, origin, ops, 1);
+		for (o2 = 0; o2 < E_NOPS; o2++) {
+			ops[1] = o2;
+			e_sequence(&t, origin, ops, 2);
+			if (maxops >= 3) for (o3 = 0; o3 < E_NOPS; o3++) { ops[2] = o3; e_sequence(&t, origin, ops, 3); }
+		}
+		end_case();
+	}
+}
+
 static void run(void) {
 	ctx = ku_ctx();
 	part_a();
@@ -1268,6 +1422,7 @@ static void run(void) {
 	part_b6();
 	part_c();
 	part_d();
+	part_e();
 	KSI_CTX_free(ctx);
 }
 
